@@ -238,6 +238,24 @@ def families(tier, seed):
             for vec in ((False,) if tier == "quick" and route != "yaml" else (False, True)):
                 out.append(dict(tag=f"{tag}/{route}", features=dict(feats, route=route, has_overrides=has_over), kind="frontends", model=model,
                                 route=route, vec=vec, seed=seed, style=1 if route == "yaml" else 0))
+    # two operators of one node own a variable of the same name; only one is overridden.  Python (list of operators + update_var)
+    # against the spec, and nodes WITHOUT edges on the overridden node through the dump / re-load route in both declaration orders
+    oa = gen.op_li("opa", x="x", ins=("u",), tau=2.0, x0=0.3, in_defaults={"u": 0.1})
+    ob = gen.op_li("opb", x="z", ins=("w",), tau=5.0, x0=-0.2, in_defaults={"w": 0.2})
+    two = gen.model([oa, ob], {"n1": dict(ops=["opa", "opb"], over={"opa/tau": 3.0}), "n2": dict(ops=["opa", "opb"], over={"opb/tau": 0.7, "opa/x": 0.9}),
+                               "n3": dict(ops=["opa", "opb"])}, [gen.edge("n3/opa/x", "n3/opb/w", 1.5)])
+    for vec in (False, True):
+        out.append(dict(tag="R2-same-variable-name-in-two-operators/python-list-update", features=dict(route="python-list-update", has_overrides=True),
+                        kind="frontends", model=two, route="python-list-update", vec=vec, seed=seed))
+    base_r = gen.op_li("op", x="r", ins=("r_in",), tau=2.0, x0=0.4)
+    for order in (("a", "b", "c"), ("b", "c", "a")):
+        nodes_r = {}
+        for lab in order:
+            nodes_r[lab] = dict(ops=["op"], over={"op/tau": 0.5, "op/r": 0.8}) if lab == "a" else dict(ops=["op"])
+        mr = gen.model([base_r], nodes_r, [gen.edge("b/op/r", "c/op/r_in", 1.5)])
+        for route in ("roundtrip", "python-list-update-roundtrip"):
+            out.append(dict(tag=f"R1-override-node-{'first' if order[0] == 'a' else 'last'}-no-edges-on-it/{route}",
+                            features=dict(route=route, has_overrides=True), kind="frontends", model=mr, route=route, vec=False, seed=seed))
     for c in edit_cases():
         out.append(dict(kind="edit", features=dict(edit=True, known_replace=c.get("known_replace", False)), **c))
     out.append(dict(tag="Y1-two-path-spellings", features={}, kind="two_spellings"))
@@ -262,7 +280,8 @@ def main():
         chk, "frontends-and-edits", _cases, dispatch, site="C15/frontends",
         rule="models (operator chains, parallel edges, multi-input operators, fan-in, hierarchy 1-2, identifier sets r/rr, m_in2/a, "
              "edge templates, gamma-kernel edges) defined through YAML text (x' notation and ^), through the Python classes + to_yaml + "
-             "from_yaml, and YAML + to_yaml + from_yaml: C01 clauses against the spec; derived operators through `base:` and through "
+             "from_yaml, YAML + to_yaml + from_yaml, and Python node templates given as operator lists + update_var (+ dump / re-load): C01 "
+             "clauses against the spec; derived operators through `base:` and through "
              "update_template with replace / remove / add / append / prepend edits over identifiers containing one another: resulting "
              "equations against the token-based edit; the same derived template through three path spellings; a hierarchy with "
              "equally named, different sub-circuits; distinct = (scenario, route, vectorize)",
